@@ -167,3 +167,77 @@ theorem dictSet_keys_nodup (d : List RowEntry) (i : Int) (v : Nat × Key) (h : (
     exact List.any_eq_true.mpr ⟨e, he, by simpa using hei⟩
 
 end Proofs.File
+
+namespace Proofs.File
+open Py Model Model.Listing
+
+/-! ### the line loops spin only at end of file -/
+
+/-- `skip_to_nonblank` does not return exactly when nothing but blank lines is left -/
+theorem skipToNonblank_spins_iff (rest : List Str) (n : Nat) :
+    skipToNonblankL rest n = none ↔ ∀ l ∈ rest, isBlank l = true := by
+  induction rest generalizing n with
+  | nil => simp [skipToNonblankL]
+  | cons l r ih =>
+    simp only [skipToNonblankL]
+    split
+    · rename_i hb
+      rw [ih]
+      constructor
+      · intro h x hx
+        rcases List.mem_cons.mp hx with rfl | hx'
+        · exact hb
+        · exact h x hx'
+      · intro h x hx; exact h x (List.mem_cons_of_mem _ hx)
+    · rename_i hb
+      constructor
+      · intro h; cases h
+      · intro h; exact absurd (h l List.mem_cons_self) hb
+
+/-- a `while not <condition on the line read>` loop that does not test for end of file does not return exactly when
+    no remaining line (and not the empty string read at end of file) satisfies the condition -/
+theorem readUntil_spins_iff (stop : Str → Bool) (eofStops : Bool) (rest : List Str) (n : Nat) :
+    readUntilL stop eofStops rest n = none ↔ (eofStops = false ∧ stop [] = false ∧ ∀ l ∈ rest, stop l = false) := by
+  induction rest generalizing n with
+  | nil =>
+    simp only [readUntilL]
+    cases eofStops <;> cases stop [] <;> simp
+  | cons l r ih =>
+    simp only [readUntilL]
+    split
+    · rename_i hs
+      constructor
+      · intro h; cases h
+      · intro h; have := h.2.2 l List.mem_cons_self; rw [hs] at this; cases this
+    · rename_i hs
+      rw [ih]
+      constructor
+      · intro ⟨h1, h2, h3⟩
+        refine ⟨h1, h2, ?_⟩
+        intro x hx
+        rcases List.mem_cons.mp hx with rfl | hx'
+        · cases h : stop x <;> simp_all
+        · exact h3 x hx'
+      · intro ⟨h1, h2, h3⟩
+        exact ⟨h1, h2, fun x hx => h3 x (List.mem_cons_of_mem _ hx)⟩
+
+/-- `skipto` always returns (it tests for end of file); it never moves backwards, and consumes at least one line
+    unless none is left -/
+theorem skipTo_no_ge (kws : List Str) (start : Nat) (rest : List Str) (n : Nat) :
+    (skipToL kws start rest n).2.no ≥ n := by
+  induction rest generalizing n with
+  | nil => simp [skipToL]
+  | cons l r ih =>
+    simp only [skipToL]
+    split
+    · simp
+    · have := ih (n + 1); omega
+
+theorem skipTo_progress (kws : List Str) (start : Nat) (l : Str) (r : List Str) (n : Nat) :
+    (skipToL kws start (l :: r) n).2.no > n := by
+  simp only [skipToL]
+  split
+  · simp
+  · have := skipTo_no_ge kws start r (n + 1); omega
+
+end Proofs.File
